@@ -718,3 +718,71 @@ Proof.
   { rewrite normpath_eq by (subst; discriminate). rewrite Hl. reflexivity. }
   rewrite <- Hn, H2, H3. reflexivity.
 Qed.
+
+(* ------------------------------------------------------------------ the static-file helpers *)
+
+Lemma starts_with_spec p : forall s, starts_with p s = true -> exists t, s = p ++ t.
+Proof.
+  induction p as [|x p IH]; intros s H; [exists s; reflexivity|].
+  destruct s as [|y s]; [discriminate|]. cbn [starts_with] in H. apply andb_prop in H. destruct H as [Hx Hp].
+  apply N.eqb_eq in Hx. subst y. destruct (IH s Hp) as [t ->]. exists t. reflexivity.
+Qed.
+
+Lemma starts_with_refl_app p t : starts_with p (p ++ t) = true.
+Proof. induction p as [|x p IH]; [reflexivity|]. cbn [app starts_with]. rewrite N.eqb_refl, IH. reflexivity. Qed.
+
+Lemma ends_with_app_self (h suf : list N) : ends_with suf (h ++ suf) = true.
+Proof. unfold ends_with. rewrite rev_app_distr. apply starts_with_refl_app. Qed.
+
+Lemma skipn_app_exact (p t : list N) : skipn (length p) (p ++ t) = t.
+Proof. induction p as [|x p IH]; [reflexivity|]. cbn [length app skipn]. exact IH. Qed.
+
+Section FileSystem.
+  Variable isfile : str -> bool.
+
+  Lemma send_from_directory_contained d p f : send_from_directory isfile d p = Some f ->
+    isfile f = true /\ inside (normpath (base_dir d)) (normpath f) = true.
+  Proof.
+    unfold send_from_directory. destruct (safe_join d [p]) as [g|] eqn:E; [|discriminate].
+    destruct (isfile g) eqn:F; [|discriminate]. intro H. inversion H; subst g.
+    split; [exact F|apply (containment d [p] f E)].
+  Qed.
+
+  (* the export key with its separator: the prefix that has to match ends at a slash *)
+  Definition export_prefix (sp : str) : str := if sdm_append_slash sp then sp ++ sdm_slash else sp.
+
+  Lemma export_prefix_slash sp : ends_with [SL] (export_prefix sp) = true.
+  Proof.
+    unfold export_prefix, sdm_append_slash. destruct (ends_with [47] sp) eqn:E; cbn [negb].
+    - exact E.
+    - apply (ends_with_app_self sp [SL]).
+  Qed.
+
+  Lemma shared_lookup_contained exports path f : shared_lookup isfile exports path = Some f ->
+    isfile f = true /\
+    exists sp dir, In (sp, dir) exports /\
+      ((sp = path /\ f = dir)
+       \/ (exists rest, path = export_prefix sp ++ rest /\ safe_join dir [rest] = Some f
+                        /\ inside (normpath (base_dir dir)) (normpath f) = true)).
+  Proof.
+    unfold shared_lookup. intro H. apply find_some in H. destruct H as [Hin Hf]. split; [exact Hf|].
+    unfold shared_candidates in Hin. apply in_flat_map in Hin. destruct Hin as [[sp dir] [He Hc]].
+    exists sp, dir. split; [exact He|]. cbn [fst snd] in Hc. unfold export_candidates in Hc.
+    apply in_app_or in Hc. destruct Hc as [Hc|Hc].
+    - left. unfold sdm_exact in Hc. destruct (list_eqb sp path) eqn:E; [|exact (False_ind _ Hc)].
+      apply list_eqb_eq in E. cbn [dir_target opt_list In] in Hc. destruct Hc as [<-|[]]. split; [exact E|reflexivity].
+    - right. cbv zeta in Hc. change (if sdm_append_slash sp then sp ++ sdm_slash else sp) with (export_prefix sp) in Hc. unfold sdm_prefix in Hc.
+      destruct (starts_with (export_prefix sp) path) eqn:E; [|exact (False_ind _ Hc)].
+      destruct (starts_with_spec _ _ E) as [rest Hp]. exists rest. split; [exact Hp|].
+      rewrite Hp, skipn_app_exact in Hc. cbn [dir_target] in Hc.
+      change (In f (opt_list (safe_join dir [rest]))) in Hc. destruct (safe_join dir [rest]) as [g|] eqn:Ej; [|exact (False_ind _ Hc)]. cbn [opt_list In] in Hc. destruct Hc as [<-|[]].
+      split; [reflexivity|apply (containment dir [rest] g Ej)].
+  Qed.
+End FileSystem.
+
+(* /static exported from /srv/www, request /static/a/../b: the candidate is /srv/www/b *)
+Lemma shared_example :
+  shared_candidates [([47; 115], [47; 119])] [47; 115; 47; 97; 47; 46; 46; 47; 98] = [[47; 119; 47; 98]]
+  /\ shared_candidates [([47; 115], [47; 119])] [47; 115; 47; 46; 46; 47; 98] = []
+  /\ shared_candidates [([47; 115], [47; 119])] [47; 115; 120; 47; 98] = [].
+Proof. vm_compute. repeat split; reflexivity. Qed.
